@@ -32,6 +32,8 @@ type Obl struct {
 	Known   string            `json:"known,omitempty"`
 	query   string
 	trivial bool
+	key     string
+	eng     *Engine
 }
 
 var dumpN int
@@ -691,7 +693,7 @@ func (fx *FuncCtx) oblige(st *State, kind string, goal Term, node ast.Node, what
 	if c := fx.oblNames[base]; c > 1 {
 		name = fmt.Sprintf("%s~%d", base, c)
 	}
-	o := &Obl{Name: name, Kind: kind, Func: fx.short, Pos: shortPos(fx.pos(node)), Src: what, Config: fx.cfg}
+	o := &Obl{Name: name, Kind: kind, Func: fx.short, Pos: shortPos(fx.pos(node)), Src: what, Config: fx.cfg, key: fx.qname, eng: fx.eng}
 	if fx.con != nil {
 		o.Props = propsFor(fx.con.Props, kind)
 	}
